@@ -83,9 +83,9 @@ func checkC07(r *harness.Run) harness.Coverage {
 	}
 	run(litExprs, univ.Js(`null`, `{"a":1}`, `[1, "1", true, "true", null, "null", 0, "0"]`))
 	// (3) nestings of two and three operators over a 12-value operand subset
-	maxTok := 5
+	maxTok := 6
 	if r.Thorough() {
-		maxTok = 6
+		maxTok = 7
 	}
 	g := univ.NewGen(univ.LogicFragment())
 	nest := buildExprs(g, maxTok, nil)
